@@ -450,7 +450,7 @@ def _final_canon(cells):
 def run(ctx):
     rng = ctx.rng
     quick = ctx.quick()
-    n_tables = 110 if quick else 1400
+    n_tables = 330 if quick else 3000
     cases = []
     for i in range(n_tables):
         c = gen_optable(rng, i)
@@ -462,7 +462,7 @@ def run(ctx):
     bases = [(n, t, a) for n, t, a in STRATIFIED]
     for name, text in gramgen.CURATED:
         bases.append((name, text, gramgen.alphabet_of(text)))
-    for i in range(60 if quick else 600):
+    for i in range(300 if quick else 4000):
         r = gramgen.random_grammar(rng, max_nt=3, max_alts=3, max_rhs=3, p_empty=rng.choice([0.0, 0.15]))
         if r is not None:
             bases.append(("rand%d" % i, r[1], ["a", "b"]))
